@@ -172,7 +172,10 @@ def unparse(n):
     if k == "ImplicitValueInitExpr":
         return "0"
     if k == "OffsetOfExpr":
-        return "offsetof(%s)" % n.get("argty")
+        path = n.get("opath", "")
+        for ch in c:
+            path = path.replace("[]", "[%s]" % unparse(ch), 1)
+        return "offsetof(%s, %s)" % (n.get("argty"), path)
     if k == "StmtExpr":
         return "({%s})" % " ".join(unparse(x) for x in c)
     if k == "PredefinedExpr":
